@@ -138,6 +138,8 @@ pub fn buffered_input_from_reader_with_limit<'a, R: Read + 'a>(
     // Auto-detect encoding (BOM or guess), decode to UTF-8 on the fly.
     let decoder = DecodeReaderBytesBuilder::new()
         .encoding(None) // None = sniff BOM / use heuristics; set Some(encoding) to force
+        .utf8_passthru(true) // UTF-8 (with or without BOM) is validated by ChunkedChars, not replaced lossily
+        .strip_bom(true)
         .build(reader);
 
     let error: ReaderInputError = Rc::new(RefCell::new(None));
